@@ -13,8 +13,8 @@ import (
 // Pins literals whose meaning an assumed contract depends on (e.g. a regular expression).
 type InitCall struct {
 	Pkg, Var, Callee, Want string
-	Props                 []string
-	Line                  int
+	Props                  []string
+	Line                   int
 }
 
 func parseInitCall(rest string) (*InitCall, error) {
